@@ -163,6 +163,37 @@ theorem large_is_big {base : Nat} (hb : 2 ≤ base) (hb36 : base ≤ 36) :
           exact ih (m + v) (by omega) hfit h
 
 
+/-- what `parseInt` makes of the digits after sign and prefix: NaN when there is no valid leading digit (`i == 0`),
+else the int64 accumulator, else (`parseLargeInt`, math/big) the exact value of the longest valid prefix -/
+def digitsResult (base : Nat) (ds : List Nat) : Option Int :=
+  match ds with
+  | [] => none
+  | c :: _ =>
+    if StrNum.digitVal c ≥ base then none
+    else match loop base 0 ds with
+      | .small n => some n
+      | .large => some (exact base 0 ds)
+
+/-- **`parseInt` returns the exact integer value of the longest valid digit prefix** (to be rounded once to the
+nearest double), for every base 2..36 and every text: the int64 fast path and the big-integer path agree with the
+mathematical value. -/
+theorem digitsResult_exact {base : Nat} (hb : 2 ≤ base) (hb36 : base ≤ 36) (ds : List Nat) :
+    digitsResult base ds =
+      (match ds with
+       | [] => none
+       | c :: _ => if StrNum.digitVal c ≥ base then none else some (exact base 0 ds)) := by
+  cases ds with
+  | nil => rfl
+  | cons c cs =>
+    simp only [digitsResult]
+    split
+    · rfl
+    · cases h : loop base 0 (c :: cs) with
+      | large => rfl
+      | small n =>
+        have := (loop_exact hb hb36 (c :: cs) 0 n (by decide) (by decide) h).1
+        simp [this]
+
 /-- ASCII code points of a digit string -/
 def cps (s : String) : List Nat := s.toList.map Char.toNat
 
